@@ -13,7 +13,7 @@ def instances(tier):
                       unwind_fail_is_violation=True,
                       desc={"what": "one %s from an ARBITRARY 4-slot table state satisfying the representation invariant, keys and hash function symbolic" % names[st]}))
     if tier == "thorough":
-        for st in (0, 1):
+        for st in (0,):
             d = {"PIXMAN_VERIF_GLYPH_HIGH_WATER": 4, "STEP": st}
             L.append(Inst("step-%s-8slots" % names[st], "C17/step.c", d, link=[], unwind=10, timeout=3000, solver="cadical",
                           unwind_fail_is_violation=True,
